@@ -35,6 +35,18 @@ def runStep (step : Nat) : Nat → List Nat → List Bool × Nat
     let rest := runStep step h.2 r
     (h.1 :: rest.1, rest.2)
 
+/-- wall-time branch (lines 433-439): `if (next <= walltime){ next += auto_walltime; save; }` — no direction
+    factor: the wall clock only moves forward.  The clock value is an input of the model (any sequence). -/
+def hbWall {α : Type} (o : Ops α) (interval next wall : α) : Bool × α :=
+  if o.le next wall then (true, o.add next interval) else (false, next)
+
+def runWall {α : Type} (o : Ops α) (interval : α) : α → List α → List Bool × α
+  | next, [] => ([], next)
+  | next, w :: r =>
+    let h := hbWall o interval next w
+    let rest := runWall o interval h.2 r
+    (h.1 :: rest.1, rest.2)
+
 def intOps : Ops Int := ⟨fun a b => decide (a ≤ b), (· + ·), (· * ·)⟩
 def floatOps : Ops Float := ⟨fun a b => a ≤ b, (· + ·), (· * ·)⟩
 
